@@ -277,6 +277,35 @@ def run(pid, tier, seed):
             jobs.append((si, "long-messages-untraced", {"_notrace": True}, None))
             jobs.append((si, "long-messages-seeded", {"S4_VERIF_SEED": str(rng.randrange(1 << 30)), "S4_VERIF_DELAY_US": "1200"}, None))
 
+        # a compressed source whose every fourth (sixteenth) newline is the first byte of a block, beside a plain one, at small
+        # block sizes: what the reader lets go of, and when, may depend on how far the printer has got -- the bytes must not
+        for ai, B_ in enumerate([256, 1024] if tier == "quick" else [128, 256, 1024, 4096]):
+            insts = [(gen.BASE + 3 * q, 0) for q in range(1, 201)]
+            ma, blob_a = [], b""
+            for q, (s_, n_) in enumerate(insts):
+                hd = gen.fmt_ts(s_, 0, 0, 0).encode() + b" src=AL idx=%d " % q
+                ln = hd + b"a" * ((65 if q == 0 else 64) - len(hd) - 1) + b"\n"
+                ma.append(gen.Msg("AL", q, s_, 0, ln))
+                blob_a += ln
+            blob_b, mb = gen.text_source("PL", [(gen.BASE + 3 * q + 1, 0) for q in range(1, 201, 2)], offset_min=0, frac=0)
+            enc = [gen.gz_bytes, gen.bz2_bytes][ai % 2]
+            ext = ["gz", "bz2"][ai % 2]
+            files = {"al.log." + ext: enc(blob_a), "pl.log": blob_b}
+            argv = ["al.log." + ext, "pl.log"]
+            sources = [ma, mb]
+            meta = [{"name": argv[0], "kind": "log." + ext, "msgs": 200, "newline_on_block_start_every": B_ // 64}, {"name": "pl.log", "kind": "log", "msgs": len(mb)}]
+            expected = b"".join(m.data for m in gen.expected_merge(sources))
+            ranks = runmodel.rank_table([m.key for s_ in sources for m in s_])
+            dts = [[ranks[m.key] for m in s_] for s_ in sources]
+            sets.append((files, argv, sources, meta, expected, ranks, dts))
+            si = len(sets) - 1
+            pre = ["--blocksz", str(B_)]
+            jobs.append((si, "aligned-stream-free", {"_pre": pre}, None))
+            for _ in range(4 if tier == "quick" else 12):
+                jobs.append((si, "aligned-stream-untraced", {"_pre": pre, "_notrace": True}, None))
+            jobs.append((si, "aligned-stream-seeded", {"_pre": pre, "S4_VERIF_SEED": str(rng.randrange(1 << 30)), "S4_VERIF_DELAY_US": "900"}, None))
+            jobs.append((si, "aligned-stream-printer-held", {"_pre": pre, "S4_VERIF_HOLD": "main:Print:3:120,main:Print:40:120"}, None))
+
         # sources that each write their timestamps in a DIFFERENT notation (and at different places in the line): every
         # reader works out its own notation at the same moment as the others do theirs; run over and over, freely
         from . import c04
